@@ -63,9 +63,11 @@ def spec_term(case, ob) -> str:
         labels = [(r[0], r[2]) for r in tr["pass1"] if r[1] in ("LabelNode", "BinaryNode") and r[4] is not None]
         pass1 = [(r[0], r[2]) for r in tr["pass1"]]
         em = [(r[0], r[2], len(r[4]) if isinstance(r[4], list) else 0, KIND.get(r[1], 0)) for r in tr["emit"]]
-        return ("(STrace " + C.clist(labels, lambda x: C.cpair(C.nat(x[0]), C.z(x[1]))) + " "
-                + C.clist(pass1, lambda x: C.cpair(C.nat(x[0]), C.z(x[1]))) + " "
-                + C.clist(em, lambda x: f"({C.nat(x[0])},{C.z(x[1])},{C.nat(x[2])},{C.z(x[3])})") + ")")
+        events = [(r[5], r[2]) for r in tr["pass1"] if r[1] in ("LabelNode", "BinaryNode") and len(r) > 5 and isinstance(r[5], str)]
+        strace = ("(STrace " + C.clist(labels, lambda x: C.cpair(C.nat(x[0]), C.z(x[1]))) + " "
+                  + C.clist(pass1, lambda x: C.cpair(C.nat(x[0]), C.z(x[1]))) + " "
+                  + C.clist(em, lambda x: f"({C.nat(x[0])},{C.z(x[1])},{C.nat(x[2])},{C.z(x[3])})") + ")")
+        return f"(SAnd {strace} (SLabelValues {C.clist(events, lambda x: C.cpair(C.cstr(x[0]), C.z(x[1])))}))"
     if t == "blocks":
         ns = [f"{{| tn_kind := {KIND.get(r[1], 0)}; tn_addr := {C.z(r[2])}; tn_pc := {C.z(r[3])}; "
               f"tn_bytes := {C.zlist(r[4] if isinstance(r[4], list) else [])}; "
